@@ -22,6 +22,7 @@ func simpleFold(r rune) rune { return unicode.SimpleFold(r) }
 type PropCfg struct {
 	Level      string   `json:"level"` // proof | other
 	Funcs      []string `json:"funcs"` // function keys relative to the module path
+	Lemmas     []string `json:"lemmas"` // lemma keys: <pkg path relative to module>.lemma:<name>
 	Regex      []struct {
 		Name string `json:"name"` // package-relative variable, e.g. klog.timePattern ; or func key + "#" + ordinal for local patterns
 		Spec string `json:"spec"`
@@ -182,7 +183,15 @@ func runProperty(p *Program, id string, cfg *PropCfg, timeout int) *checkResult 
 			Note: "function listed under this property no longer exists (renamed or deleted)"})
 	}
 	allFindings = loadFindings()
-	res.jobs = p.runJobs(fns, SolverCfg{TimeoutMs: timeout, Dir: filepath.Join(verifRoot(), "replays", id), Keep: false})
+	var lemmas []*Contract
+	for _, l := range cfg.Lemmas {
+		if c, ok := p.contracts.byKey[modulePath+"/"+l]; ok && c.Lemma {
+			lemmas = append(lemmas, c)
+		} else {
+			res.structural = append(res.structural, &Obligation{Name: l + "#contract-unbound", Kind: "contract-unbound", Status: "failed", Note: "lemma listed under this property is missing from the contract files"})
+		}
+	}
+	res.jobs = p.runJobsL(fns, lemmas, SolverCfg{TimeoutMs: timeout, Dir: filepath.Join(verifRoot(), "replays", id), Keep: false})
 	for _, j := range res.jobs {
 		if j.Err != "" {
 			res.structural = append(res.structural, &Obligation{Name: j.Name + "#unsupported", Kind: "unsupported", Status: "failed", Note: j.Err, Job: j.Name})
